@@ -50,6 +50,17 @@ class SymObj:
         return "<%s %s>" % (self.kind, self.attrs.get("label", ""))
 
 
+class VecObj(SymObj):
+    """A symbolic point / expression that also has a value in the vector-space calculus of sa/nf.py (.val: PointV or ExprV)."""
+
+    def __init__(self, kind, val, **attrs):
+        super().__init__(kind, **attrs)
+        self.val = val
+
+    def __repr__(self):
+        return "<%s %s>" % (self.kind, self.val)
+
+
 def _is_rat(x):
     return type(x).__name__ == "Rat"
 
@@ -95,9 +106,27 @@ class IndexInterp:
             return tuple(self.ev(x) for x in e.elts)
         if isinstance(e, ast.List):
             return [self.ev(x) for x in e.elts]
+        if isinstance(e, ast.Dict) and all(k is not None for k in e.keys):
+            out = {}
+            for k, v in zip(e.keys, e.values):
+                kk = self.ev(k)
+                try:
+                    hash(kk)
+                except TypeError:
+                    raise AnalysisError("unhashable key in `%s`" % src(e)[:60])
+                out[kk] = self.ev(v)
+            return out
+        if isinstance(e, ast.DictComp) and len(e.generators) >= 1:
+            out = {}
+            self._comp(e.generators, 0, lambda: out.__setitem__(self.ev(e.key), self.ev(e.value)))
+            return out
         if isinstance(e, ast.UnaryOp):
             v = self.ev(e.operand)
             if isinstance(e.op, ast.USub):
+                if isinstance(v, VecObj):
+                    return VecObj(v.kind, -v.val)
+                if _is_rat(v):
+                    return -v
                 return -v if isinstance(v, (int, float)) else ("neg", v)
             if isinstance(e.op, ast.UAdd):
                 return v
@@ -112,6 +141,17 @@ class IndexInterp:
                             ast.Mod: lambda: a % b, ast.Div: lambda: a / b, ast.Pow: lambda: a ** b}[type(e.op)]()
                 except (KeyError, ZeroDivisionError):
                     raise AnalysisError("arithmetic `%s`" % src(e))
+            if isinstance(a, VecObj) or isinstance(b, VecObj):
+                from .nf import v_add, v_sub, v_mul, v_div, Rat, SortError, PointV
+                from fractions import Fraction
+                un = lambda x: x.val if isinstance(x, VecObj) else (Rat(Fraction(repr(x))) if isinstance(x, float) else (Rat(x) if isinstance(x, int) else x))
+                try:
+                    r = {ast.Add: v_add, ast.Sub: v_sub, ast.Mult: v_mul, ast.Div: v_div}[type(e.op)](un(a), un(b))
+                except (KeyError, SortError) as ex:
+                    raise AnalysisError("`%s`: %s" % (src(e)[:60], ex))
+                if _is_rat(r):
+                    return r
+                return VecObj("Point" if isinstance(r, PointV) else "Expression", r)
             if (_is_rat(a) or _is_rat(b)) and (num(a) or _is_rat(a)) and (num(b) or _is_rat(b)):
                 from fractions import Fraction
                 fa = Fraction(repr(a)) if isinstance(a, float) else a
@@ -190,6 +230,9 @@ class IndexInterp:
                 if idx in base:
                     return base[idx]
                 raise AnalysisError("KeyError: `%s`" % src(e)[:60])
+            if isinstance(base, (list, tuple)) and not is_token(base) and is_token(idx) and idx[0] == "slice" \
+                    and all(x is None or isinstance(x, int) for x in idx[1:]):
+                return base[slice(idx[1], idx[2], idx[3])]
             if isinstance(base, (list, tuple)) and isinstance(idx, int):
                 try:
                     return base[idx]
@@ -209,6 +252,8 @@ class IndexInterp:
                     if e.attr in base.attrs:
                         return base.attrs[e.attr]
                     raise AnalysisError("attribute `%s` of a symbolic %s" % (e.attr, base.kind))
+                if is_token(base) and base[0] == "attr" and isinstance(base[1], str):
+                    return ("attr", base[1] + "." + e.attr)        # attribute of a local alias of an attribute chain (task = self.task; task.putbaraij)
                 if isinstance(base, Matrix):
                     if e.attr == "T":
                         return base.copy_with(lambda k, v: ((k[1], k[0]) if isinstance(k, tuple) and len(k) == 2 else k, v),
@@ -268,6 +313,23 @@ class IndexInterp:
             return list(v)
         raise AnalysisError("iteration over `%s` outside the index-program fragment" % src(node)[:60])
 
+    def callee_text(self, func):
+        """dotted text of the callee with local aliases of attribute chains resolved (`put = self.task.putbaraij; put(...)` -> 'self.task.putbaraij')"""
+        if isinstance(func, ast.Name):
+            v = self.env.get(func.id)
+            if is_token(v) and v[0] == "attr" and isinstance(v[1], str):
+                return v[1]
+            return func.id
+        if isinstance(func, ast.Attribute):
+            try:
+                v = self.ev(func)
+            except AnalysisError:
+                v = None
+            if is_token(v) and v[0] == "attr" and isinstance(v[1], str):
+                return v[1]
+            return dotted(func) or src(func)
+        return src(func)
+
     def _call(self, e):
         nm = call_name(e)
         if self.on_call is not None:
@@ -295,7 +357,7 @@ class IndexInterp:
             return list(seq) if nm == "list" else tuple(seq)
         if plain and nm == "reversed" and len(args) == 1:
             return list(reversed(self._iterate(args[0], e)))
-        if plain and nm == "len" and len(args) == 1 and isinstance(args[0], (list, tuple)):
+        if plain and nm == "len" and len(args) == 1 and isinstance(args[0], (list, tuple, dict)) and not is_token(args[0]):
             return len(args[0])
         if plain and nm in ("max", "min") and args and all(isinstance(a, (int, float)) for a in args):
             return max(args) if nm == "max" else min(args)
@@ -334,7 +396,7 @@ class IndexInterp:
             ts = t if isinstance(t, tuple) and not is_token(t) else (t,)
             kind = ("type", v.kind) if isinstance(v, SymObj) else ("type", "float" if _is_rat(v) else type(v).__name__)
             return kind in ts
-        return ("call", " ".join(src(e.func).split()), tuple(args), tuple(sorted(kw.items())))
+        return ("call", self.callee_text(e.func), tuple(args), tuple(sorted(kw.items())))
 
     # ------------------------------------------------------------------ statements
     def _bind(self, target, value):
@@ -359,7 +421,13 @@ class IndexInterp:
             else:
                 raise AnalysisError("store into `%s`" % src(target))
         elif isinstance(target, ast.Attribute):
-            self.env[dotted(target)] = value
+            base = None
+            if isinstance(target.value, ast.Name) and target.value.id in self.env:
+                base = self.env[target.value.id]
+            if isinstance(base, SymObj):
+                base.attrs[target.attr] = value          # a store into a symbolic object stays with the object
+            else:
+                self.env[dotted(target)] = value
         else:
             raise AnalysisError("assignment target `%s`" % src(target))
 
@@ -385,7 +453,12 @@ class IndexInterp:
                 if cur is None:
                     raise AnalysisError("augmented assignment to the unbound `%s`" % src(s.target))
                 rhs = self.ev(s.value)
-                if (_is_rat(cur) or _is_rat(rhs)) and isinstance(s.op, (ast.Add, ast.Sub, ast.Mult, ast.Div)):
+                if isinstance(cur, VecObj) or isinstance(rhs, VecObj):
+                    tmpl, tmpr = "__aug_l", "__aug_r"
+                    self.env[tmpl], self.env[tmpr] = cur, rhs
+                    self._bind(s.target, self.ev(ast.BinOp(left=ast.Name(id=tmpl, ctx=ast.Load()), op=s.op, right=ast.Name(id=tmpr, ctx=ast.Load()))))
+                    del self.env[tmpl], self.env[tmpr]
+                elif (_is_rat(cur) or _is_rat(rhs)) and isinstance(s.op, (ast.Add, ast.Sub, ast.Mult, ast.Div)):
                     res = {ast.Add: lambda: cur + rhs, ast.Sub: lambda: cur - rhs, ast.Mult: lambda: cur * rhs, ast.Div: lambda: cur / rhs}[type(s.op)]
                     self._bind(s.target, res())
                 elif isinstance(cur, (int, float)) and isinstance(rhs, (int, float)):
